@@ -113,6 +113,87 @@ class Collect(Case):
     def canary(self, e, res, k):
         return None
 
+    def conformance(self, T, values):
+        """model-bound collect_results on concrete model arrays (selections of full columns) vs the real
+        function on numpy arrays: same entries, masks and values"""
+        import numpy as np
+
+        from pyvc import ctx as C
+        from pyvc import replay
+        from pyvc.npmodel import from_values
+
+        if self.concrete_regions(values):
+            return "outside"
+        n = values["n"]
+        seen = [0] * n
+        for c_ in values["contexts"]:
+            if c_["has"]:
+                for i, b in enumerate(c_["sub"]):
+                    seen[i] += b
+        if any(v > 1 for v in seen):
+            return "outside"  # requires: disjoint windows
+        absent = self.params.get("axes") == "absent"
+        mod = T.module(self.module)
+        c = C.Ctx()
+        c.concrete_mode = True
+
+        def lst(a, masked_ok=True):
+            if isinstance(a, MArr):
+                nn = alg.as_concrete(a.n)
+                return [None if _b(a.m(i)) else _v(a._data.elem(i)) for i in range(nn)]
+            if isinstance(a, Selection):
+                nb = alg.as_concrete(a.base_n)
+                return [_v(a.base_elem(i)) for i in range(nb) if _b(a.sel(i)[1])]
+            if isinstance(a, Arr):
+                return [_v(a.elem(i)) for i in range(alg.as_concrete(a.n))]
+            return "?"
+
+        def _b(x):
+            return bool(alg.as_concrete(x) if alg.is_sym(x) else x)
+
+        def _v(p):
+            v = alg.as_concrete(p[1]) if alg.is_sym(p[1]) else p[1]
+            return float(v)
+
+        with C.activate(c):
+            rs = []
+            for q, c_ in enumerate(values["contexts"]):
+                sub = from_values([bool(b) for b in c_["sub"]], "b")
+                col = lambda off: Selection(from_values([i + off for i in range(n)], "f"), sub)  # noqa: E731
+                flags = Selection(from_values([10 * (q + 1) + i for i in range(n)], "u"), sub)
+                empty = from_values([], "f")
+                results = [mod.CallResult(package="qartod", test="probe_test", function=len, results=flags)] if c_["has"] else []
+                rs.append(mod.ContextResult(stream_id="s", results=results, subset_indexes=sub, data=col(0.5), tinp=col(100.0), zinp=empty if absent else col(200.0), lat=empty if absent else col(300.0), lon=empty if absent else col(400.0)))
+            try:
+                out = getattr(mod, self.function)(rs)
+                if self.params["how"] == "list":
+                    m = [(cr.stream_id, cr.package, cr.test, lst(cr.results), lst(cr.data), lst(cr.tinp)) for cr in out]
+                else:
+                    m = {k1: {k2: {k3: lst(a) for k3, a in d2.items()} for k2, d2 in d1.items()} for k1, d1 in out.items()}
+            except C.Unsupported:
+                raise
+            except Exception as ex:  # noqa: BLE001
+                m = ("raise", type(ex).__name__)
+        e = Env(n=n, contexts=values["contexts"], K=len(values["contexts"]))
+        rmod = replay.real_module(self.module)
+        try:
+            rout = getattr(rmod, self.function)(self._concrete_results(rmod, e, True))
+
+            def rl(a):
+                a = np.ma.masked_array(a)
+                mk = np.ma.getmaskarray(a)
+                return [None if mk[i] else float(a.data[i]) for i in range(len(a))]
+
+            if self.params["how"] == "list":
+                r = [(cr.stream_id, cr.package, cr.test, rl(cr.results), rl(cr.data), rl(cr.tinp)) for cr in rout]
+            else:
+                r = {k1: {k2: {k3: rl(a) for k3, a in d2.items()} for k2, d2 in d1.items()} for k1, d1 in rout.items()}
+        except Exception as ex:  # noqa: BLE001
+            r = ("raise", type(ex).__name__)
+        if m != r:
+            return "model %s vs real %s" % (str(m)[:300], str(r)[:300])
+        return None
+
     # ------------------------------------------------------------------ concrete readings
     def _concrete_results(self, mod, e, real):
         import numpy as np
